@@ -25,6 +25,13 @@ OPTIONAL_KEYS = ['Gradient 1', 'Maximum Temperature', 'Surface Temperature', 'Am
                  'Thickness 1', 'Gradient 2', 'Thickness 2', 'Gradient 3', 'Injectivity Index', 'Productivity Index']
 
 
+TWEAKABLE = {'Reservoir Density', 'Reservoir Heat Capacity', 'Reservoir Thermal Conductivity', 'Production Flow Rate per Well',
+             'Injection Temperature', 'Surface Temperature', 'Ambient Temperature', 'Circulation Pump Efficiency',
+             'Production Well Diameter', 'Injection Well Diameter', 'Fracture Separation', 'Fracture Height', 'Fracture Width',
+             'Reservoir Volume', 'Injectivity Index', 'Productivity Index', 'Reservoir Porosity', 'Reservoir Permeability',
+             'Production Wellbore Temperature Drop', 'Injection Wellbore Temperature Gain', 'End-Use Efficiency Factor'}
+
+
 def _spawn(spec, hashseed, timeout=600):
     tmp = tempfile.mkdtemp(prefix='gxv-c08-', dir=os.environ.get('GXV_TMP'))
     sp, op = os.path.join(tmp, 'spec.json'), os.path.join(tmp, 'out.json')
@@ -80,11 +87,40 @@ def make_requests(ctx):
     for ex in rng.sample(['example3', 'example4', 'example10_HP', 'example11_AC', 'example13', 'example8', 'example9'], ctx.pick(2, 4)):
         case, raw = gen.example_case(ex)
         texts.append(gen.render(case, raw))
+    # two bases on the inverse-Laplace reservoir models (1, 2): their Calculate is the expensive one, i.e. where a cache is
+    # most tempting
+    slow = gen.grid_cells(res_models=(1, 2))
+    rng.shuffle(slow)
+    for cell in slow[:ctx.pick(2, 4)]:
+        c = gen.synth_case(rng, cell, addons=False, overpressure=False, sdac=False)
+        gen.cset(c, 'Plant Lifetime', min(int(gen.cget(c, 'Plant Lifetime')), 15))
+        texts.append(gen.render(c))
+
+    def tweak(t):
+        # a version that differs from t in one or two physical parameters only (whichever the text sets), by a few percent:
+        # anything keyed on *some* of the inputs shows when the others change
+        lines = t.split('\n')
+        idx = [j for j, ln in enumerate(lines) if ln.split(',')[0].strip() in TWEAKABLE and len(ln.split(',')) >= 2]
+        rng.shuffle(idx)
+        out = list(lines)
+        done = 0
+        for j in idx:
+            parts = out[j].split(',')
+            try:
+                v = float(parts[1].strip())
+            except ValueError:
+                continue
+            parts[1] = ' ' + repr(round(v * rng.choice([0.94, 0.97, 1.03, 1.06]), 6))
+            out[j] = ','.join(parts[:2])
+            done += 1
+            if done >= rng.choice([1, 1, 2]):
+                break
+        return '\n'.join(out)
     for i, t in enumerate(texts):
         v1 = t + f'\nGradient 1, {40 + 3 * i}\n'
         v1b = t + f'\nGradient 1, {60 + 3 * i}\n'             # same length as v1: only the content differs
         v2 = t + f'\nPlant Lifetime, {11 + i}\nUtilization Factor, 0.8{i}\n'
-        reqs[f'q{i}'] = [t, v1, v1b, v2]
+        reqs[f'q{i}'] = [t, v1, v1b, v2, tweak(t), tweak(t)]
     # sparse requests: the same kind of input with optional lines removed, so that the run relies on the documented
     # defaults (cross-run state hiding in default objects only shows when a later request does NOT set the parameter)
     for i, t in enumerate(texts[:ctx.pick(3, 6)]):
@@ -128,7 +164,10 @@ def make_history(ctx, reqs, n_calls):
         r = rng.random()
         if r < 0.12:
             k = rng.choice(keys)
-            version[k] = (version[k] + 1) % len(reqs[k])
+            if rng.random() < 0.5 or len(reqs[k]) < 3:
+                version[k] = (version[k] + 1) % len(reqs[k])
+            else:
+                version[k] = rng.choice([v for v in range(len(reqs[k])) if v != version[k]])
             ops.append({'op': 'rewrite', 'req': k, 'text': reqs[k][version[k]]})
         elif r < 0.2:
             cands = [d for d in range(3) if d not in removed]
@@ -145,6 +184,39 @@ def make_history(ctx, reqs, n_calls):
                         'reuse_params': rng.random() < 0.7})
             calls += 1
     return {'requests': {k: reqs[k][0] for k in keys}, 'ndirs': 3, 'ops': ops}
+
+
+def one_parameter_versions(rng, t, limit=None):
+    """Versions of request text t that each differ from it in exactly one physical parameter (by a few percent)."""
+    lines = t.split('\n')
+    out = []
+    for j, ln in enumerate(lines):
+        parts = ln.split(',')
+        if parts[0].strip() not in TWEAKABLE or len(parts) < 2:
+            continue
+        try:
+            v = float(parts[1].strip())
+        except ValueError:
+            continue
+        new = list(lines)
+        new[j] = parts[0] + ', ' + repr(round(v * rng.choice([0.94, 0.97, 1.03, 1.06]), 6))
+        out.append('\n'.join(new))
+    rng.shuffle(out)
+    return out[:limit] if limit else out
+
+
+def directed_history(rng, t, versions):
+    """One request file taken through all its versions in turn (rewritten under the same path between calls), alternately
+    through a caching and a non-caching client: anything that remembers an earlier request under a key that ignores part
+    of the input shows on the version that differs only in the ignored part."""
+    ops = [{'op': 'client', 'id': 'A', 'caching': True}, {'op': 'client', 'id': 'B', 'caching': False},
+           {'op': 'call', 'client': 'A', 'req': 'd', 'reuse_params': True}]
+    for n, v in enumerate(versions):
+        ops.append({'op': 'rewrite', 'req': 'd', 'text': v})
+        ops.append({'op': 'call', 'client': 'AB'[n % 2], 'req': 'd', 'reuse_params': rng.random() < 0.5})
+    ops.append({'op': 'rewrite', 'req': 'd', 'text': t})
+    ops.append({'op': 'call', 'client': 'A', 'req': 'd', 'reuse_params': True})
+    return {'requests': {'d': t}, 'ndirs': 3, 'ops': ops}
 
 
 def check_history(mon, spec, out, refs, case):
@@ -217,6 +289,18 @@ def run(ctx):
             if t is not None:
                 all_texts[_sha(t)] = t
     specs = [make_history(ctx, reqs, ctx.rng.randint(10, 40)) for _ in range(ctx.pick(32, 240))]
+    # directed rewrite chains: every base request through its edited versions and through versions that differ in exactly one
+    # physical parameter
+    for k, vs in reqs.items():
+        if not k.startswith('q'):
+            continue
+        t = vs[0]
+        slow_model = any(ln.replace(' ', '') in ('ReservoirModel,1', 'ReservoirModel,2') for ln in t.split('\n'))
+        ones = one_parameter_versions(ctx.rng, t, None if slow_model else ctx.pick(6, 12))
+        chain = [v for v in vs[1:4]] + ones
+        for v in chain:
+            all_texts[_sha(v)] = v
+        specs.append(directed_history(ctx.rng, t, chain))
     refs = {}
     jobs = [{'fn': 'gxv.props.c08:ref_job', 'args': {'text': t}, 'timeout': 600, 'sha': s} for s, t in all_texts.items()]
     hjobs = [{'fn': 'gxv.props.c08:history_job', 'args': {'spec': sp, 'hashseed': HASHSEEDS[i % len(HASHSEEDS)]},
@@ -258,7 +342,8 @@ def run(ctx):
     ctx.rule = ('histories of 10-40 GeophiresXClient calls over 3-5 request files drawn from fast configuration families '
                 '(repeats, out-of-range / non-member / missing-file requests and requests the simulator abandons through a bare sys.exit(), the same path rewritten with different content '
                 'between calls, three clients with caching on/off interleaved, re-used and fresh input-parameter objects, '
-                'changes of working directory and deleted directories), each history in a fresh subprocess under one of 4 '
+                'changes of working directory and deleted directories; plus one directed rewrite chain per base request through '
+                'its edited versions and versions differing in exactly one physical parameter), each history in a fresh subprocess under one of 4 '
                 'PYTHONHASHSEED values; the oracle execution F(text) is a single call in its own fresh process; results are '
                 'compared as normalised report text (date/time/version lines removed); distinct = distinct history specs; '
                 'every history is non-trivial (at least 10 calls, at least 3 request files)')
